@@ -55,6 +55,8 @@ SIGS = {
     'load': ['int', 'bool'],
     'dump_manager': ['int', 'lint'],
     'load_manager': ['int'],
+    'add_expr': ['spell'],
+    'to_expr': ['int'],
     'to_nx': ['lint'],
     'to_dot': ['olint'],
     'support': ['int'],
@@ -115,6 +117,8 @@ def _conv(kind, a):
         return None if a == 'none' else _conv(kind[1:], a)
     if kind == 'lint':
         return [int(x) for x in a]
+    if kind == 'spell':
+        return _impl.Spellings(bytes.fromhex(x).decode() for x in a)
     if kind == 'roots':
         if a == 'none':
             return None
@@ -142,6 +146,7 @@ ASIGS = {
     'ref': ['int'], 'negated': ['int'], 'len': ['int'], 'int': ['int'], 'drop': ['int'],
     'gc': [], 'reorder': ['odnn'], 'configure': ['obool'], 'set_last_len': ['oint'],
     'set_trig': ['oint'], 'copy': ['int', 'int'], 'shutdown': [],
+    'add_expr': ['spell'], 'to_expr': ['int'],
 }
 
 
@@ -200,6 +205,17 @@ class Session:
         self.nops += 1
         return raw if res.startswith('ok:') else None
 
+    def parse(self, spellings):
+        """compare the syntax trees only (no manager involved)"""
+        sp = _impl.Spellings(spellings)
+        try:
+            e = 'ok:' + _impl.ply_tree(sp)
+        except Exception:  # noqa: B902
+            e = 'err:rejected'
+        self.lines.append('parse ' + _impl.fmt_arg(sp))
+        self.expect.append(e)
+        return e
+
     def ok(self):
         return self.expect[-1].startswith('ok:')
 
@@ -236,6 +252,13 @@ def replay_impl(lines, full=True):
         _impl.install_trigger(True)
     try:
         for line in lines:
+            if line.startswith('parse '):
+                sp = _conv('spell', _parse_arg(line.split()[1]))
+                try:
+                    out.append('ok:' + _impl.ply_tree(sp))
+                except Exception:  # noqa: B902
+                    out.append('err:rejected')
+                continue
             if line.startswith('!digest'):
                 m = line.split()[1]
                 m = m if m.startswith('a') else int(m)
